@@ -310,6 +310,9 @@ def build_c(unit, units, outdir, defines=()):
             if fw not in parts:
                 parts.append(fw)
     parts.append(types.typedefs())
+    for n in allu:
+        for ps in units[n].get('partial_structs', []):
+            shared['selfs'].setdefault(ps, OrderedDict())
     # struct bodies in dependency order (a by-value member needs its struct to be complete first)
     names = [n_ for n_ in shared['selfs'] if n_ != '_noself' and n_ not in records.values()]
     ordered = []
@@ -325,6 +328,8 @@ def build_c(unit, units, outdir, defines=()):
         visit(n_)
     for sname in ordered:
         members = shared['selfs'][sname]
+        if not members:
+            members = {'_unused': 'char'}     # a partial struct none of whose members is touched: still a complete type
         parts.append('typedef struct %s {\n%s\n} %s;' % (sname, '\n'.join('\t%s %s;' % (ct, m) for m, ct in members.items()), sname))
     shim_ghosts = []
     for vn, el in types.vecs.items():
